@@ -106,68 +106,72 @@ Record client := mkC {
   capp : list (nat * nat);         (* (item, partition) appended by the brokers *)
   csent : bool;                    (* an EndTxn(commit) was applied *)
   cowned : bool;                   (* it has opened a coordinator transaction *)
-  ctoc : list nat                  (* offset items of the TxnOffsetCommit the group coordinator applied last *)
+  ctoc : list nat;                 (* offset items of the TxnOffsetCommit the group coordinator applied last *)
+  cerr : bool                      (* error_transaction / fatal_error happened in this transaction *)
 }.
 
 Definition client0 : client :=
-  mkC true 0 UNINIT [] [] false [] [] [] [] None 0 [] false [] false false [].
+  mkC true 0 UNINIT [] [] false [] [] [] [] None 0 [] false [] false false [] false.
 
 (* field updates *)
 Definition set_alive (c : client) (x : bool) :=
   mkC x (cep c) (cst c) (txn_parts c) (pend_parts c) (grp c) (pend_offs c) (queue c) (inflight c) (deadb c)
-      (slot c) (kcur c) (accepted c) (lostb c) (capp c) (csent c) (cowned c) (ctoc c).
+      (slot c) (kcur c) (accepted c) (lostb c) (capp c) (csent c) (cowned c) (ctoc c) (cerr c).
 Definition set_cep (c : client) (x : nat) :=
   mkC (alive c) x (cst c) (txn_parts c) (pend_parts c) (grp c) (pend_offs c) (queue c) (inflight c) (deadb c)
-      (slot c) (kcur c) (accepted c) (lostb c) (capp c) (csent c) (cowned c) (ctoc c).
+      (slot c) (kcur c) (accepted c) (lostb c) (capp c) (csent c) (cowned c) (ctoc c) (cerr c).
 Definition set_cst (c : client) (x : tst) :=
   mkC (alive c) (cep c) x (txn_parts c) (pend_parts c) (grp c) (pend_offs c) (queue c) (inflight c) (deadb c)
-      (slot c) (kcur c) (accepted c) (lostb c) (capp c) (csent c) (cowned c) (ctoc c).
+      (slot c) (kcur c) (accepted c) (lostb c) (capp c) (csent c) (cowned c) (ctoc c) (cerr c).
 Definition set_parts (c : client) (t p : list nat) :=
   mkC (alive c) (cep c) (cst c) t p (grp c) (pend_offs c) (queue c) (inflight c) (deadb c)
-      (slot c) (kcur c) (accepted c) (lostb c) (capp c) (csent c) (cowned c) (ctoc c).
+      (slot c) (kcur c) (accepted c) (lostb c) (capp c) (csent c) (cowned c) (ctoc c) (cerr c).
 Definition set_grp (c : client) (x : bool) :=
   mkC (alive c) (cep c) (cst c) (txn_parts c) (pend_parts c) x (pend_offs c) (queue c) (inflight c) (deadb c)
-      (slot c) (kcur c) (accepted c) (lostb c) (capp c) (csent c) (cowned c) (ctoc c).
+      (slot c) (kcur c) (accepted c) (lostb c) (capp c) (csent c) (cowned c) (ctoc c) (cerr c).
 Definition set_offs (c : client) (x : list (list nat)) :=
   mkC (alive c) (cep c) (cst c) (txn_parts c) (pend_parts c) (grp c) x (queue c) (inflight c) (deadb c)
-      (slot c) (kcur c) (accepted c) (lostb c) (capp c) (csent c) (cowned c) (ctoc c).
+      (slot c) (kcur c) (accepted c) (lostb c) (capp c) (csent c) (cowned c) (ctoc c) (cerr c).
 Definition set_queue (c : client) (x : list batch) :=
   mkC (alive c) (cep c) (cst c) (txn_parts c) (pend_parts c) (grp c) (pend_offs c) x (inflight c) (deadb c)
-      (slot c) (kcur c) (accepted c) (lostb c) (capp c) (csent c) (cowned c) (ctoc c).
+      (slot c) (kcur c) (accepted c) (lostb c) (capp c) (csent c) (cowned c) (ctoc c) (cerr c).
 Definition set_inflight (c : client) (x : list batch) :=
   mkC (alive c) (cep c) (cst c) (txn_parts c) (pend_parts c) (grp c) (pend_offs c) (queue c) x (deadb c)
-      (slot c) (kcur c) (accepted c) (lostb c) (capp c) (csent c) (cowned c) (ctoc c).
+      (slot c) (kcur c) (accepted c) (lostb c) (capp c) (csent c) (cowned c) (ctoc c) (cerr c).
 Definition set_deadb (c : client) (x : list batch) :=
   mkC (alive c) (cep c) (cst c) (txn_parts c) (pend_parts c) (grp c) (pend_offs c) (queue c) (inflight c) x
-      (slot c) (kcur c) (accepted c) (lostb c) (capp c) (csent c) (cowned c) (ctoc c).
+      (slot c) (kcur c) (accepted c) (lostb c) (capp c) (csent c) (cowned c) (ctoc c) (cerr c).
 Definition set_slot (c : client) (x : option (skind * sstat)) :=
   mkC (alive c) (cep c) (cst c) (txn_parts c) (pend_parts c) (grp c) (pend_offs c) (queue c) (inflight c) (deadb c)
-      x (kcur c) (accepted c) (lostb c) (capp c) (csent c) (cowned c) (ctoc c).
+      x (kcur c) (accepted c) (lostb c) (capp c) (csent c) (cowned c) (ctoc c) (cerr c).
 Definition set_accepted (c : client) (x : list (nat * nat)) :=
   mkC (alive c) (cep c) (cst c) (txn_parts c) (pend_parts c) (grp c) (pend_offs c) (queue c) (inflight c) (deadb c)
-      (slot c) (kcur c) x (lostb c) (capp c) (csent c) (cowned c) (ctoc c).
+      (slot c) (kcur c) x (lostb c) (capp c) (csent c) (cowned c) (ctoc c) (cerr c).
 Definition set_lostb (c : client) (x : bool) :=
   mkC (alive c) (cep c) (cst c) (txn_parts c) (pend_parts c) (grp c) (pend_offs c) (queue c) (inflight c) (deadb c)
-      (slot c) (kcur c) (accepted c) x (capp c) (csent c) (cowned c) (ctoc c).
+      (slot c) (kcur c) (accepted c) x (capp c) (csent c) (cowned c) (ctoc c) (cerr c).
 Definition set_capp (c : client) (x : list (nat * nat)) :=
   mkC (alive c) (cep c) (cst c) (txn_parts c) (pend_parts c) (grp c) (pend_offs c) (queue c) (inflight c) (deadb c)
-      (slot c) (kcur c) (accepted c) (lostb c) x (csent c) (cowned c) (ctoc c).
+      (slot c) (kcur c) (accepted c) (lostb c) x (csent c) (cowned c) (ctoc c) (cerr c).
 Definition set_csent (c : client) (x : bool) :=
   mkC (alive c) (cep c) (cst c) (txn_parts c) (pend_parts c) (grp c) (pend_offs c) (queue c) (inflight c) (deadb c)
-      (slot c) (kcur c) (accepted c) (lostb c) (capp c) x (cowned c) (ctoc c).
+      (slot c) (kcur c) (accepted c) (lostb c) (capp c) x (cowned c) (ctoc c) (cerr c).
 Definition set_ctoc (c : client) (x : list nat) :=
   mkC (alive c) (cep c) (cst c) (txn_parts c) (pend_parts c) (grp c) (pend_offs c) (queue c) (inflight c) (deadb c)
-      (slot c) (kcur c) (accepted c) (lostb c) (capp c) (csent c) (cowned c) x.
+      (slot c) (kcur c) (accepted c) (lostb c) (capp c) (csent c) (cowned c) x (cerr c).
+Definition set_cerr (c : client) (x : bool) :=
+  mkC (alive c) (cep c) (cst c) (txn_parts c) (pend_parts c) (grp c) (pend_offs c) (queue c) (inflight c) (deadb c)
+      (slot c) (kcur c) (accepted c) (lostb c) (capp c) (csent c) (cowned c) (ctoc c) x.
 Definition set_cowned (c : client) (x : bool) :=
   mkC (alive c) (cep c) (cst c) (txn_parts c) (pend_parts c) (grp c) (pend_offs c) (queue c) (inflight c) (deadb c)
-      (slot c) (kcur c) (accepted c) (lostb c) (capp c) (csent c) x (ctoc c).
+      (slot c) (kcur c) (accepted c) (lostb c) (capp c) (csent c) x (ctoc c) (cerr c).
 (* begin_transaction: a new application transaction *)
 Definition new_txn (c : client) (t : tst) :=
   mkC (alive c) (cep c) t (txn_parts c) (pend_parts c) (grp c) (pend_offs c) (queue c) (inflight c) []
-      (slot c) (S (kcur c)) [] false [] false false [].
+      (slot c) (S (kcur c)) [] false [] false false [] false.
 (* error_transaction / fatal_error: partitions, group and pending offsets are forgotten *)
 Definition c_clear (c : client) (t : tst) :=
-  set_lostb (set_offs (set_grp (set_parts (set_cst c t) [] []) false) []) true.
+  set_cerr (set_lostb (set_offs (set_grp (set_parts (set_cst c t) [] []) false) []) true) true.
 
 Definition has_part_q (p : nat) (q : list batch) : bool := existsb (fun b => Nat.eqb (bpart b) p) q.
 Definition has_bid (n : nat) (q : list batch) : bool := existsb (fun b => Nat.eqb (bid b) n) q.
